@@ -161,6 +161,14 @@ fn ops(v: &[(u8, u64)]) -> Vec<Op> {
 
 fn flowspec_v4_mixes() -> Vec<Vec<FlowspecV4Component>> {
     use FlowspecV4Component as C;
+    let mut sized: Vec<Vec<C>> = FLOWSPEC_BODY_SIZES.iter().map(|n| vec![C::DstPort(sized_port_ops(*n))]).collect();
+    let mut base = flowspec_v4_mixes_base();
+    base.append(&mut sized);
+    base
+}
+
+fn flowspec_v4_mixes_base() -> Vec<Vec<FlowspecV4Component>> {
+    use FlowspecV4Component as C;
     vec![
         vec![C::DstPrefix(net4("10.1.0.0", 16))],
         vec![
@@ -184,10 +192,43 @@ fn flowspec_v4_mixes() -> Vec<Vec<FlowspecV4Component>> {
     ]
 }
 
+/// A port list whose encoding is exactly `body` octets: one type octet, then k three-octet operators (two-octet values)
+/// and j two-octet operators (one-octet values).
+fn sized_port_ops(body: usize) -> Vec<Op> {
+    let rest = body - 1;
+    let j = (0..3).find(|j| rest >= 2 * j && (rest - 2 * j) % 3 == 0).unwrap();
+    let k = (rest - 2 * j) / 3;
+    let mut v: Vec<(u8, u64)> = Vec::new();
+    for i in 0..k {
+        v.push((Op::EQ, 1000 + i as u64));
+    }
+    for i in 0..j {
+        v.push((Op::EQ, 10 + i as u64));
+    }
+    ops(&v)
+}
+
+/// body lengths around the boundaries of the flowspec NLRI length field (RFC 8955 4.1: < 240 one octet, else two)
+const FLOWSPEC_BODY_SIZES: [usize; 7] = [238, 239, 240, 241, 255, 256, 700];
+
 fn flowspec_v6_mixes() -> Vec<Vec<FlowspecV6Component>> {
+    use FlowspecV6Component as C;
+    let mut sized: Vec<Vec<C>> = FLOWSPEC_BODY_SIZES.iter().map(|n| vec![C::DstPort(sized_port_ops(*n))]).collect();
+    let mut base = flowspec_v6_mixes_base();
+    base.append(&mut sized);
+    base
+}
+
+fn flowspec_v6_mixes_base() -> Vec<Vec<FlowspecV6Component>> {
     use FlowspecV6Component as C;
     vec![
         vec![C::DstPrefix { prefix: net6("2001:db8:1::", 48), offset: 0 }],
+        // non-zero prefix offsets (RFC 8956 3.1): destination and source each with their own
+        vec![
+            C::DstPrefix { prefix: net6("2001:db8:1::", 48), offset: 16 },
+            C::SrcPrefix { prefix: net6("2001:db8:ffff:1::", 64), offset: 32 },
+        ],
+        vec![C::SrcPrefix { prefix: net6("2001:db8:2::", 47), offset: 8 }, C::NextHeader(ops(&[(Op::EQ, 6)]))],
         vec![
             C::DstPrefix { prefix: net6("2001:db8:2::", 64), offset: 0 },
             C::SrcPrefix { prefix: net6("2001:db8:ffff::1", 128), offset: 0 },
@@ -210,7 +251,51 @@ fn flowspec_v6_mixes() -> Vec<Vec<FlowspecV6Component>> {
     ]
 }
 
+/// MAC/IP Advertisement: host address {none, IPv4, IPv6} x second label {absent, present} x ESI {zero, set};
+/// IP Prefix: {IPv4, IPv6} x gateway {zero, set} x prefix length {0, odd, full}
+fn evpn_product() -> Vec<EvpnNlri> {
+    let mac = [0x02, 0x00, 0x5e, 0x77, 0x88, 0x99];
+    let mut v = Vec::new();
+    for (i, host) in [None, Some(ip("10.20.30.41")), Some(ip("2001:db8:20::41"))].into_iter().enumerate() {
+        for label2 in [None, Some(20021u32)] {
+            for e in [Esi::ZERO, esi(7)] {
+                v.push(EvpnNlri::MacIpAdvertisement(MacIpAdvertisement {
+                    rd: rd_as2(),
+                    esi: e,
+                    etag: 700 + i as u32,
+                    mac,
+                    ip: host,
+                    label1: 10021,
+                    label2,
+                }));
+            }
+        }
+    }
+    for (pfx, full, gws) in [("10.51.0.0", 32u8, ["0.0.0.0", "192.0.2.5"]), ("2001:db8:51::", 128u8, ["::", "2001:db8::6"])] {
+        for gw in gws {
+            for plen in [0u8, 17, full] {
+                v.push(EvpnNlri::EthernetIpPrefix(EthernetIpPrefixRoute {
+                    rd: rd_ip(),
+                    esi: Esi::ZERO,
+                    etag: 800 + plen as u32,
+                    ip_prefix: ip(pfx),
+                    prefix_len: plen,
+                    gateway_ip: ip(gw),
+                    label: 10052,
+                }));
+            }
+        }
+    }
+    v
+}
+
 fn evpn_samples() -> Vec<EvpnNlri> {
+    let mut v = evpn_samples_base();
+    v.append(&mut evpn_product());
+    v
+}
+
+fn evpn_samples_base() -> Vec<EvpnNlri> {
     let mac = [0x02, 0x00, 0x5e, 0x10, 0x20, 0x30];
     vec![
         EvpnNlri::EthernetAutoDiscovery(EthernetAutoDiscoveryRoute {
@@ -554,12 +639,12 @@ pub fn nlri_samples(family: Family) -> Vec<Nlri> {
             .collect(),
         Family::IPV4_FLOWSPEC_VPN => flowspec_v4_mixes()
             .into_iter()
-            .zip([rd_as2(), rd_ip(), rd_as4()])
+            .zip([rd_as2(), rd_ip(), rd_as4()].into_iter().cycle())
             .map(|(components, rd)| Nlri::FlowspecVpnV4(FlowspecVpnV4Nlri { rd, components }))
             .collect(),
         Family::IPV6_FLOWSPEC_VPN => flowspec_v6_mixes()
             .into_iter()
-            .zip([rd_as2(), rd_ip(), rd_as4()])
+            .zip([rd_as2(), rd_ip(), rd_as4()].into_iter().cycle())
             .map(|(components, rd)| Nlri::FlowspecVpnV6(FlowspecVpnV6Nlri { rd, components }))
             .collect(),
         Family::L2VPN_EVPN => evpn_samples().into_iter().map(Nlri::Evpn).collect(),
